@@ -60,7 +60,11 @@ PrefixIsError == IsCase => \A k \in CutPoints : ~DecTop(S, RootT, SubSeq(E, 1, k
 
 \* the ideal decoder is total on every corruption (and, by construction, never
 \* "allocates" a count it has not checked against the remaining input)
-Inputs == IF Muts = "layout" THEN Mutations(E, Lay(S, RootT, V)) ELSE <<>>
+\* at most 150 corruptions per encoding, spread evenly over the list (records with hundreds of elements)
+Thin(q, n) == IF Len(q) <= n THEN q ELSE [i \in 1..n |-> q[(((i - 1) * Len(q)) \div n) + 1]]
+\* (every corruption costs three model decodes: encodings beyond MaxMutLen bytes are not corrupted)
+MaxMutLen == IF Tier = "thorough" THEN 160 ELSE 96
+Inputs == IF Muts = "layout" /\ Len(E) <= MaxMutLen THEN Thin(Mutations(E, Lay(S, RootT, V)), 150) ELSE <<>>
 \* C05: two further records follow the case's value on the same stream, and the
 \* fragmentation patterns (caps on the bytes one Read may return, applied cyclically)
 Streams == Muts = "stream"
